@@ -16,6 +16,8 @@
  *     32 node->hash stale   64 red-black tree / lyds metadata   128 ids of the table not all reachable
  */
 #include <assert.h>
+#include <unistd.h>
+#include <signal.h>
 #include "proto.h"
 
 #define MAXID 4096
@@ -170,6 +172,20 @@ clear_subtree(struct lyd_node *n)
 
     if (i >= 0) tab[i] = NULL;
     LY_LIST_FOR(lyd_child(n), c) clear_subtree(c);
+}
+
+static void
+drop_defaults(struct lyd_node *first)
+{
+    struct lyd_node *n;
+
+    LY_LIST_FOR(first, n) {
+        if (n->flags & LYD_DEFAULT) {
+            clear_subtree(n);
+        } else if (lyd_child(n)) {
+            drop_defaults(lyd_child(n));
+        }
+    }
 }
 
 static int next_auto = 2000;
@@ -663,13 +679,73 @@ find_schema_child(const struct lysc_node *sparent, const char *modname_colon_nam
     return lys_find_child(sparent, m, c + 1, 0, 0, 0);
 }
 
-#define REFUSE(why) do { fputs(" | R:" why, stdout); return; } while (0)
+#define REFUSE(why) do { fputs(" R:" why, stdout); return; } while (0)
+#define MARK(f) do { if (law_mode) { fputs(" X:" f, stdout); fflush(stdout); } } while (0)
+
+/* a sibling ring that does not end (F50): nothing below may be walked any more */
+static int
+forest_cyclic(void)
+{
+    for (int i = 0; i < MAXID; i++) {
+        const struct lyd_node *n = tab[i];
+        int guard = 0;
+        if (!n) continue;
+        for (; n && guard < 20000; n = n->next) guard++;
+        if (guard >= 20000) return 1;
+        for (n = tab[i], guard = 0; n->prev->next && guard < 20000; n = n->prev) guard++;
+        if (guard >= 20000) return 1;
+        for (n = tab[i], guard = 0; n && guard < 1000; n = lyd_parent(n)) guard++;
+        if (guard >= 1000) return 1;
+    }
+    return 0;
+}
+
 
 static void
 done(LY_ERR r, int search)
 {
-    fprintf(stdout, " | %s V%u", rcname(r), battery(search));
+    if (forest_cyclic()) {
+        /* report and give up this process: the structure cannot be walked or freed */
+        fprintf(stdout, " %s V256\n", rcname(r));
+        fflush(stdout);
+        _exit(0);
+    }
+    fprintf(stdout, " %s V%u", rcname(r), battery(search));
     dump_forest();
+}
+
+static int
+in_subtree(const struct lyd_node *root, const struct lyd_node *x)
+{
+    int guard = 0;
+    for (; x && guard < 1000; x = lyd_parent(x), guard++) {
+        if (x == root) return 1;
+    }
+    return 0;
+}
+
+static int
+modules_in(const struct lyd_node *first)
+{
+    const struct lyd_node *n;
+    const struct lys_module *m = NULL;
+    int cnt = 0;
+
+    LY_LIST_FOR(first, n) {
+        if (n->schema && lyd_owner_module(n) != m) { m = lyd_owner_module(n); cnt++; }
+    }
+    return cnt;
+}
+
+static int
+all_toplevel_schema(const struct lyd_node *first)
+{
+    const struct lyd_node *n;
+
+    LY_LIST_FOR(first, n) {
+        if (!n->schema || lysc_data_parent(n->schema)) return 0;
+    }
+    return 1;
 }
 
 static int
@@ -684,6 +760,8 @@ run_op(char *op, int last)
     char *a[8];
     int na = split(op, ',', a, 8);
     int search = !quick_search || last;
+
+    fputs(" |", stdout);
 
     if (!strcmp(a[0], "new") && na == 5) {
         int id = atoi(a[1]);
@@ -715,6 +793,7 @@ run_op(char *op, int last)
             if (s->flags & LYS_KEYLESS) r = lyd_new_list(parent, m, nm, 0, &node);
             else r = lyd_new_list(parent, m, nm, 0, &node, val);
         } else {
+            if ((s->flags & LYS_KEY) && parent) MARK("F52");
             r = lyd_new_term(parent, m, nm, val, 0, &node);
         }
         free(val);
@@ -741,6 +820,7 @@ run_op(char *op, int last)
         struct lyd_node *n = node_arg(a[1]), *t = node_arg(a[2]);
         if (!n || !t) REFUSE("NoNode");
         if (!t->schema) REFUSE("OpaqParent");
+        if (n != t && in_subtree(n, t)) REFUSE("Cycle");
         if (!law_mode) {
             /* mirror the order of libyang's checks so that the refusal happens exactly where the model refuses */
             if ((t->schema->nodetype & LYD_NODE_INNER) &&
@@ -750,6 +830,7 @@ run_op(char *op, int last)
     } else if (!strcmp(a[0], "ins_sibling") && na == 3) {
         struct lyd_node *n = node_arg(a[1]), *t = node_arg(a[2]);
         if (!n || !t) REFUSE("NoNode");
+        if (n != t && in_subtree(n, t)) REFUSE("Cycle");
         if (!law_mode && n != t) {
             int ok = !n->schema || !t->schema || lysc_data_parent(n->schema) == lysc_data_parent(t->schema);
             if (ok) {
@@ -759,10 +840,13 @@ run_op(char *op, int last)
                 if (lyd_first_sibling(t) == n) REFUSE("OutOfFragment");
             }
         }
+        if (n != t && n->schema && !t->schema) MARK("F51");   /* no schema check at all next to an opaque sibling */
+        if (n != t && lyd_first_sibling(t) == n) MARK("F50");
         done(lyd_insert_sibling(t, n, NULL), search);
     } else if ((!strcmp(a[0], "ins_before") || !strcmp(a[0], "ins_after")) && na == 3) {
         struct lyd_node *n = node_arg(a[1]), *t = node_arg(a[2]);
         if (!n || !t) REFUSE("NoNode");
+        if (n != t && in_subtree(n, t)) REFUSE("Cycle");
         if (!law_mode && n != t) {
             int ok = !n->schema || !t->schema || lysc_data_parent(n->schema) == lysc_data_parent(t->schema);
             if (ok) {
@@ -770,6 +854,7 @@ run_op(char *op, int last)
                 if (lysc_is_userordered(n->schema) && !t->schema) REFUSE("OutOfFragment");
             }
         }
+        if (n != t && (!n->schema || !t->schema)) MARK("F51");
         done(a[0][4] == 'b' ? lyd_insert_before(t, n) : lyd_insert_after(t, n), search);
     } else if (!strcmp(a[0], "unlink") && na == 2) {
         struct lyd_node *n = node_arg(a[1]);
@@ -792,6 +877,14 @@ run_op(char *op, int last)
         if (!n) REFUSE("NoNode");
         char *val = vp_unhex(a[2], &vl);
         if (!val) REFUSE("BadArg");
+#ifdef SIB_WB
+        if (law_mode && n->schema && (n->schema->nodetype & LYD_NODE_TERM)) {
+            /* the F19 trigger, evaluated on the real structures: the re-sorted target has sibling instances and its
+             * parent has a children hash table */
+            struct lyd_node *t = (n->schema->nodetype == LYS_LEAFLIST) ? n : ((lysc_is_key(n->schema) && n->parent) ? lyd_parent(n) : NULL);
+            if (t && !LYD_NODE_IS_ALONE(t) && lyds_is_supported(t) && t->parent && t->parent->schema && t->parent->children_ht) MARK("F19");
+        }
+#endif
         LY_ERR r = lyd_change_term(n, val);
         free(val);
         done(r, search);
@@ -818,14 +911,17 @@ run_op(char *op, int last)
         }
         free(val);
         int fid = m ? id_of(m) : -1;
-        if (fid >= 0) fprintf(stdout, " | %s F%d", rcname(r), fid);
-        else fprintf(stdout, " | %s F-", rcname(r));
+        if (fid >= 0) fprintf(stdout, " %s F%d", rcname(r), fid);
+        else fprintf(stdout, " %s F-", rcname(r));
     } else if (law_mode && !strcmp(a[0], "dup") && na == 4) {
         /* dup,<id>,<parent|->,<opts>: recursive copy, new nodes get ids from 2000 */
         struct lyd_node *n = node_arg(a[1]), *p = NULL, *d = NULL;
         if (!n) REFUSE("NoNode");
         if (strcmp(a[2], "-") && !(p = node_arg(a[2]))) REFUSE("NoNode");
         if (p && (!p->schema || !(p->schema->nodetype & LYD_NODE_INNER))) REFUSE("ParentNotInner");
+        /* only where the copy belongs by schema (the API does not check it) */
+        if (p && (!n->schema || lysc_data_parent(n->schema) != p->schema)) REFUSE("BadParent");
+        if (!p && n->schema && lysc_data_parent(n->schema) && (atoi(a[3]) & LYD_DUP_WITH_PARENTS) && 0) REFUSE("BadParent");
         LY_ERR r = lyd_dup_single(n, (struct lyd_node_inner *)p, (uint32_t)atoi(a[3]), &d);
         if (!r && d) {
             struct lyd_node *top = d;
@@ -838,6 +934,8 @@ run_op(char *op, int last)
         if (!n) REFUSE("NoNode");
         if (strcmp(a[2], "-") && !(p = node_arg(a[2]))) REFUSE("NoNode");
         if (p && (!p->schema || !(p->schema->nodetype & LYD_NODE_INNER))) REFUSE("ParentNotInner");
+        if (p && (!n->schema || lysc_data_parent(n->schema) != p->schema)) REFUSE("BadParent");
+        if (p && lyd_parent(n) == p) REFUSE("SameParent");   /* copying a list into itself does not terminate */
         LY_ERR r = lyd_dup_siblings(n, (struct lyd_node_inner *)p, (uint32_t)atoi(a[3]), &d);
         if (!r && d) {
             struct lyd_node *top = d, *it;
@@ -851,8 +949,11 @@ run_op(char *op, int last)
         if (!src || !dst) REFUSE("NoNode");
         if (src->parent || dst->parent) REFUSE("NotTop");
         dst = lyd_first_sibling(dst);
+        if (!all_toplevel_schema(dst) || !src->schema || lysc_data_parent(src->schema)) REFUSE("NotTop");
         if (lyd_first_sibling(src) == dst) REFUSE("SameTree");
         uint16_t opts = (uint16_t)atoi(a[3]);
+        /* with LYD_MERGE_DESTRUCT the whole sibling list of the source is spent */
+        if ((opts & LYD_MERGE_DESTRUCT) && (src->next || src->prev != src)) REFUSE("SrcNotAlone");
         if (opts & LYD_MERGE_DESTRUCT) clear_subtree(src);
         int did = id_of(dst);
         LY_ERR r = lyd_merge_tree(&dst, src, opts);
@@ -868,7 +969,10 @@ run_op(char *op, int last)
         if (!n) REFUSE("NoNode");
         if (n->parent) REFUSE("NotTop");
         n = lyd_first_sibling(n);
-        LY_ERR r = lyd_validate_all(&n, NULL, LYD_VALIDATE_PRESENT | LYD_VALIDATE_NO_STATE * 0, NULL);
+        if (!all_toplevel_schema(n)) REFUSE("NotTop");
+        if (modules_in(n) > 1) MARK("F53");
+        drop_defaults(n);       /* default nodes may be deleted by the validation: forget their ids first */
+        LY_ERR r = lyd_validate_all(&n, NULL, LYD_VALIDATE_PRESENT, NULL);
         if (n) { struct lyd_node *it; LY_LIST_FOR(lyd_first_sibling(n), it) register_new(it); }
         done(r == LY_EVALID ? LY_EVALID : r, search);
     } else if (law_mode && !strcmp(a[0], "implicit") && na == 2) {
@@ -885,10 +989,22 @@ run_op(char *op, int last)
     }
 }
 
+/* a request that does not finish (a cyclic structure inside libyang): say so and give up this process */
+static void
+on_alarm(int sig)
+{
+    static const char msg[] = " HANG\n";
+    (void)sig;
+    if (write(1, msg, sizeof msg - 1) < 0) {}
+    _exit(0);
+}
+
 static int
 sib_main(void)
 {
     struct vp_req r = {0};
+
+    signal(SIGALRM, on_alarm);
 
     ly_log_options(0);
     dbg = getenv("SIBDBG") != NULL;
@@ -903,6 +1019,7 @@ sib_main(void)
         quick_search = strchr(r.tok[3] + 1, 'q') != NULL;
         cur = get_ctx(r.tok[5]);
         if (!cur) { vp_reply(id, "err BadSchema"); continue; }
+        alarm(8);
         fprintf(stdout, "%s ok D=", id);
         vp_puthex(cur->desc, strlen(cur->desc));
         /* ops */
@@ -916,6 +1033,7 @@ sib_main(void)
         fputc('\n', stdout);
         fflush(stdout);
         free_all();
+        alarm(0);
     }
     free(r.line);
     for (int i = 0; i < nctx; i++) { ly_ctx_destroy(ctxs[i].ctx); free(ctxs[i].key); free(ctxs[i].desc); }
